@@ -505,7 +505,8 @@ impl<T: Transport + 'static> SyncEngine<T> {
             self.ignore_times,
             self.size_only,
             self.checksum,
-        );
+        )
+        .follow_symlinks(matches!(self.symlink_mode, SymlinkMode::Follow));
         let mut tasks = Vec::with_capacity(source_files.len());
 
         for file in &source_files {
